@@ -631,7 +631,9 @@ def run_case(case):
     # ---- gating rule
     gated = True
     why = None
-    if np.any(noise["struct"] > 0):
+    if mjm.nv and np.linalg.eigvalsh(mw.dense_M(mjm, mjd.M))[0] <= 1e-9 * float(np.abs(mjd.M).max()):
+      gated, why = False, "singular inertia matrix"
+    elif np.any(noise["struct"] > 0):
       gated, why = False, "reference structure unstable under ulp probe"
     elif [int(rs[0]), int(rs[1]), int(rs[2]), int(rs[3])] != [int(nefc[w]), int(ne[w]), int(nf[w]), int(nl[w])]:
       gated, why = False, "constraint counts differ"
